@@ -113,8 +113,12 @@ def sum_of_2d_modes(modes, weights):
     weights = np.asarray(weights)
     if modes.dtype.kind in 'fc':
         # keep reduced precision modes from being promoted by the weights;
-        # the weights must not be truncated to integer or boolean modes
-        weights = weights.astype(modes.dtype)
+        # the weights must not be truncated to integer or boolean modes,
+        # nor complex weights to real modes
+        dtype = modes.dtype
+        if weights.dtype.kind == 'c':
+            dtype = np.result_type(dtype, np.complex64)
+        weights = weights.astype(dtype)
 
     # dot product of the 0th dim of modes and weights => weighted sum
     return np.tensordot(modes, weights, axes=(0, 0))
